@@ -21,7 +21,7 @@ def main():
         for n, (a, b) in MUTS.items():
             assert a in base, n
             open(os.path.join(d, "DecWork.tla"), "w").write(base.replace(a, b, 1))
-            out = subprocess.run("timeout 300 java -Xss64m -cp /opt/veriftools/tla/tla2tools.jar:/opt/veriftools/tla/CommunityModules-deps.jar tlc2.TLC -workers 4 -metadir ./m -cleanup -noGenerateSpecTE -config MC_DecWork_3.cfg DecWork.tla",
+            out = subprocess.run("timeout 300 java -Xss64m -Djava.io.tmpdir=. -cp /opt/veriftools/tla/tla2tools.jar:/opt/veriftools/tla/CommunityModules-deps.jar tlc2.TLC -workers 4 -metadir ./m -cleanup -noGenerateSpecTE -config MC_DecWork_3.cfg DecWork.tla",
                                  shell=True, cwd=d, capture_output=True, text=True).stdout
             m = re.findall(r'(Invariant \w+ is violated|Action property \w+ is violated|No error has been found)', out)
             print(n, m[:1])
